@@ -338,8 +338,10 @@ class ScriptedDaemon:
         return await self._call('get_block', compute, hex_hash[:8])
 
     async def mempool_hashes(self):
-        return await self._call('mempool_hashes',
-                                lambda: [txid[::-1].hex() for txid in self.mempool])
+        def compute():
+            self.last_listing_height = len(self.best) - 1     # the height this listing is of
+            return [txid[::-1].hex() for txid in self.mempool]
+        return await self._call('mempool_hashes', compute)
 
     async def getrawtransactions(self, hex_hashes, replace_errs=True):
         hex_hashes = list(hex_hashes)
